@@ -1,0 +1,139 @@
+//go:build verif
+
+// Totality contracts (C04): small functions whose generated safety obligations (bounds, nil, panics, overflow,
+// termination) are discharged for all inputs; a few carry their obvious functional postcondition as well.
+// Comments only; see contracts_verif.go for the conventions.
+
+package commonmark
+
+//@ func (*Block).AsNode
+//@   inlined
+//@   serves C04
+
+//@ func (*Block).ChildCount
+//@   inlined
+//@   ensures[count] isnil(b) ? result == 0 : result == (len(b.blockChildren) > 0 ? len(b.blockChildren) : len(b.inlineChildren))
+//@   serves C04
+
+//@ func (*Block).Kind
+//@   inlined
+//@   ensures[kind] isnil(b) ? result == 0 : result == b.kind
+//@   serves C04
+
+//@ func (*Block).Span
+//@   inlined
+//@   serves C04
+
+//@ func (*Block).firstChild
+//@   inlined
+//@   serves C04
+
+//@ func (*Block).isOpen
+//@   inlined
+//@   ensures[open] result <==> (!isnil(b) && b.span.End < 0)
+//@   serves C04
+
+//@ func (*Block).lastChild
+//@   inlined
+//@   serves C04
+
+//@ func (*Inline).AsNode
+//@   inlined
+//@   serves C04
+
+//@ func (*Inline).ChildCount
+//@   inlined
+//@   ensures[count] isnil(inline) ? result == 0 : result == len(inline.children)
+//@   serves C04
+
+//@ func (*Inline).IndentWidth
+//@   inlined
+//@   serves C04
+
+//@ func (*Inline).Kind
+//@   inlined
+//@   ensures[kind] isnil(inline) ? result == 0 : result == inline.kind
+//@   serves C04
+
+//@ func (*Inline).Span
+//@   inlined
+//@   serves C04
+
+//@ func BlockKind.IsCode
+//@   inlined
+//@   ensures[code] result <==> (k == IndentedCodeBlockKind || k == FencedCodeBlockKind)
+//@   serves C04
+
+//@ func BlockKind.IsHeading
+//@   inlined
+//@   ensures[heading] result <==> (k == ATXHeadingKind || k == SetextHeadingKind)
+//@   serves C04
+
+//@ func Node.Block
+//@   inlined
+//@   serves C04
+
+//@ func Node.ChildCount
+//@   inlined
+//@   serves C04
+
+//@ func Node.Inline
+//@   inlined
+//@   serves C04
+
+//@ func Node.Span
+//@   inlined
+//@   serves C04
+
+//@ func NullSpan
+//@   inlined
+//@   serves C04
+
+//@ func Span.Intersect
+//@   inlined
+//@   serves C04
+
+//@ func Span.IsValid
+//@   inlined
+//@   ensures[valid] result <==> (span.Start >= 0 && span.End >= 0 && span.Start <= span.End)
+//@   serves C04
+
+//@ func Span.Len
+//@   inlined
+//@   ensures[len] result >= 0
+//@   serves C04
+
+//@ func hasCaseInsensitiveBytePrefix
+//@   loop 0: invariant[eq] forall k in [0, _i): Lower(b[k]) == Lower(prefix[k])
+//@   ensures[prefix] result <==> (len(b) >= len(prefix) && (forall k in [0, len(prefix)): Lower(b[k]) == Lower(prefix[k])))
+//@   serves C04
+
+//@ func hasHTMLDeclarationPrefix
+//@   inlined
+//@   serves C04
+
+//@ func isEntity
+//@   inlined
+//@   serves C04
+
+//@ func isOnlySpaces
+//@   loop 0: invariant[sp] forall k in [0, _i): line[k] == 0x20
+//@   ensures[spaces] result <==> (forall k in [0, len(line)): line[k] == 0x20)
+//@   serves C04
+
+//@ func isUnquotedAttributeValueChar
+//@   inlined
+//@   serves C04
+
+//@ func listMarker.isOrdered
+//@   inlined
+//@   serves C04
+
+//@ func newInlineByteReader
+//@   inlined
+//@   serves C04
+
+//@ func transformLinkReference
+//@   inlined
+//@   modifies everything
+//@   serves C04
